@@ -41,6 +41,13 @@ func (c *connection) onHup(p Poll) error {
 	onRequest := c.onRequestCallback.Load()
 	needCloseByUser := onConnect == nil && onRequest == nil
 	if !needCloseByUser {
+		// send & close by peer: input that is still buffered must be offered to OnRequest before the
+		// connection is torn down. A handler task does that and runs the close callbacks when it is done.
+		// (If a task is still running, onProcess fails like closeCallback would, and that task takes over.)
+		if handler, ok := onRequest.(OnRequest); ok && c.Reader().Len() > 0 &&
+			!(onConnect != nil && c.getState() == connStateNone) && c.onProcess(nil, handler) {
+			return nil
+		}
 		// already PollDetach when call OnHup
 		c.closeCallback(true, false)
 	}
